@@ -222,8 +222,129 @@ def long_quic_outage():
         lpx.stop(); qh.stop(); e2.stop()
     except Exception as e:
         long_result['machinery'] = repr(e)
+def blackhole(port):
+    """a listener whose accept queue is full: further SYNs are dropped"""
+    l = socket.socket()
+    l.setsockopt(socket.SOL_SOCKET, socket.SO_REUSEADDR, 1)
+    for _ in range(100):
+        try:
+            l.bind(('127.0.0.1', port))
+            break
+        except OSError:
+            time.sleep(0.05)
+    l.listen(0)
+    fillers = []
+    for _ in range(8):
+        f = socket.socket()
+        f.settimeout(0.3)
+        try:
+            f.connect(('127.0.0.1', port))
+            fillers.append(f)
+        except OSError:
+            f.close()
+            return l, fillers, True
+    return l, fillers, False
+
+
+# ---- also in parallel: behind a healthy upstream proxy ONE origin goes silent (connection attempts dropped). The
+#      requests for it stay unanswered until the connector gives up; tunnels that run through the same upstream (for
+#      QUIC: over the same shared connection) to other origins must not notice, and new ones are still served
+silent_result = {}
+class Hop:
+    """second redproxy hop with an http or socks listener and a direct connector"""
+    def __init__(self, kind):
+        self.kind, self.port, self.api = kind, free_port(), free_port()
+        self.px = Proxy({'listeners': [{'name': kind, 'type': kind, 'bind': f'127.0.0.1:{self.port}'}], 'connectors': [{'name': 'direct'}],
+                         'rules': [{'target': 'direct'}], 'metrics': {'bind': f'127.0.0.1:{self.api}', 'ui': None}}, 'c19hop')
+        self.px.api_port = self.api
+        if not self.px.start([self.port, self.api], timeout=6):
+            raise RuntimeError('hop does not start')
+    def stop(self):
+        self.px.stop()
+
+def silent_origin(kind):
+    res = {}
+    hop = QuicHop() if kind == 'quic' else Hop(kind)
+    e3 = Origin('echo')
+    fhp, fap = free_port(), free_port()
+    conn = {'quic': {'name': 'k', 'type': 'quic', 'server': 'localhost', 'port': hop.port, 'bind': '127.0.0.1:0', 'tls': {'ca': f'{CERTS}/ca.crt'}},
+            'http': {'name': 'k', 'type': 'http', 'server': '127.0.0.1', 'port': hop.port},
+            'socks': {'name': 'k', 'type': 'socks', 'server': '127.0.0.1', 'port': hop.port}}[kind]
+    fpx = Proxy({'listeners': [{'name': 'http', 'bind': f'127.0.0.1:{fhp}'}], 'connectors': [conn], 'rules': [{'target': 'k'}],
+                 'metrics': {'bind': f'127.0.0.1:{fap}', 'ui': None}}, 'c19s')
+    fpx.api_port = fap
+    try:
+        if not fpx.start([fhp, fap]):
+            return {'machinery': 'front proxy did not start'}
+        def tunnel():
+            s, code, head, rest = http_connect(fhp, f'127.0.0.1:{e3.port}', timeout=DEADLINE)
+            if code != 200:
+                s.close()
+                return None
+            return s
+        def echo_ok(s, tag):
+            try:
+                s.sendall(tag)
+                return recv_exact(s, len(tag), 3.0) == tag
+            except OSError:
+                return False
+        tunnels = [tunnel() for _ in range(3)]
+        if any(t is None for t in tunnels) or not all(echo_ok(t, b'first') for t in tunnels):
+            return {'machinery': 'tunnels through the hop do not work before the scenario'}
+        hole_port = free_port()
+        hole, fillers, dropping = blackhole(hole_port)
+        if not dropping:
+            return {'skipped': 'could not make the kernel drop connection attempts'}
+        answers = []
+        def unanswered(i):
+            t = time.time()
+            try:
+                s, code, head, rest = http_connect(fhp, f'127.0.0.1:{hole_port}', timeout=30)
+                answers.append((code, round(time.time() - t, 1)))
+                s.close()
+            except OSError as e:
+                answers.append((type(e).__name__, round(time.time() - t, 1)))
+        ths = [threading.Thread(target=unanswered, args=(i,), daemon=True) for i in range(3)]
+        [t.start() for t in ths]
+        t0 = time.time()
+        broken = new_failed = None
+        n = 0
+        while time.time() - t0 < 15.0 and broken is None:
+            n += 1
+            for i, t in enumerate(tunnels):
+                if not echo_ok(t, f'r{n:04d}'.encode()):
+                    broken = (i, round(time.time() - t0, 1))
+                    break
+            if new_failed is None:
+                s = None
+                try:
+                    s = tunnel()
+                    if s is None or not echo_ok(s, b'fresh'):
+                        new_failed = round(time.time() - t0, 1)
+                except OSError:
+                    new_failed = round(time.time() - t0, 1)
+                if s:
+                    s.close()
+            time.sleep(0.5)
+        for f in fillers:
+            f.close()
+        hole.close()
+        res.update({'broken': broken, 'new_failed': new_failed, 'rounds': n, 'answers_for_the_silent_origin': sorted(answers, key=str), 'alive': fpx.alive() and hop.px.alive()})
+        for t in tunnels:
+            t.close()
+        return res
+    finally:
+        fpx.stop(); hop.stop(); e3.stop()
+
 long_thread = threading.Thread(target=long_quic_outage, daemon=True)
 long_thread.start()
+def _guard(k):
+    try:
+        silent_result[k] = silent_origin(k)
+    except Exception as e:
+        silent_result[k] = {'machinery': repr(e)}
+silent_threads = [threading.Thread(target=_guard, args=(k,), daemon=True) for k in ('quic', 'http', 'socks')]
+[t.start() for t in silent_threads]
 
 KINDS = ['direct', 'http', 'socks5', 'quic', 'lb']
 PHASES = ['idle', 'mid-transfer', 'during-handshake']
@@ -309,29 +430,6 @@ for (kind, phase, fault) in schedules:
 
 # ---- the upstream silently drops connection attempts (no refusal, no reset) while many requests are routed to it:
 #      tunnels and new requests on other upstreams must not notice, and the connector recovers afterwards
-def blackhole(port):
-    """a listener whose accept queue is full: further SYNs are dropped"""
-    l = socket.socket()
-    l.setsockopt(socket.SOL_SOCKET, socket.SO_REUSEADDR, 1)
-    for _ in range(100):
-        try:
-            l.bind(('127.0.0.1', port))
-            break
-        except OSError:
-            time.sleep(0.05)
-    l.listen(0)
-    fillers = []
-    for _ in range(8):
-        f = socket.socket()
-        f.settimeout(0.3)
-        try:
-            f.connect(('127.0.0.1', port))
-            fillers.append(f)
-        except OSError:
-            f.close()
-            return l, fillers, True
-    return l, fillers, False
-
 for kind in ('http', 'socks5'):
     if not px.alive():
         break
@@ -405,6 +503,24 @@ if tier() == 'thorough' and px.alive():
             for site, cls, detail in vs:
                 chk.violation(site, cls + ':second-outage', detail, {'connector': kind, 'faults': [f1, f2]})
 
+for t in silent_threads:
+    t.join(120)
+for kind in ('quic', 'http', 'socks'):
+    r = silent_result.get(kind)
+    evals += 1
+    if r is None or 'machinery' in r:
+        machinery(f'silent-origin scenario {kind}: {r}')
+    if 'skipped' in r:
+        samples.append({'silent_origin': kind, 'skipped': r['skipped']})
+        continue
+    distinct.add(('silent-origin', kind, r['broken'] is None, r['new_failed'] is None))
+    if r['broken'] is not None:
+        chk.violation('recovery.isolation', f'tunnel-to-another-origin-broken-by-unanswered-request:{kind}', f'{kind} upstream healthy, one origin behind it silent: tunnel {r["broken"][0]} to another origin through the same upstream stopped echoing {r["broken"][1]} s after the unanswered requests were sent (their answers: {r["answers_for_the_silent_origin"]})', {'connector': kind, 'result': r})
+    if r['new_failed'] is not None:
+        chk.violation('recovery.isolation', f'new-request-to-another-origin-fails-while-one-origin-is-silent:{kind}', f'{kind}: a new tunnel to a healthy origin failed {r["new_failed"]} s into the scenario', {'connector': kind, 'result': r})
+    if not r['alive']:
+        chk.violation('recovery.isolation', f'process-died:{kind}', f'{kind}: a proxy process ended during the silent-origin scenario', {'connector': kind})
+    samples.append({'silent_origin': kind, 'result': r})
 long_thread.join(240)
 evals += 1
 if long_thread.is_alive() or 'machinery' in long_result:
@@ -425,6 +541,6 @@ for o in (echo, qecho, cecho):
 if evals < 12 or len(distinct) < 5:
     machinery(f'vacuous: evals={evals} distinct={len(distinct)}')
 cov = {'evaluations': evals, 'distinct_nontrivial': len(distinct), 'transitions': evals, 'traces_validated_against_impl': evals,
-       'rule': f'real binary: connector kind {KINDS} x outage phase {PHASES} x fault {FAULTS} (quick: handshake phase only with restart; thorough adds all pairs of outages); recovery = a probe succeeds within K={K} attempts of {DEADLINE} s after the upstream is reachable again; control tunnel checked during and after every outage; a QUIC upstream away for 34 s (thorough 110 s) with one request per second arriving meanwhile (the connection attempt backs off exponentially); plus, for http and socks5 upstreams, a listener that silently drops connection attempts with 48 requests pending while the control tunnel and new direct requests are timed',
+       'rule': f'real binary: connector kind {KINDS} x outage phase {PHASES} x fault {FAULTS} (quick: handshake phase only with restart; thorough adds all pairs of outages); recovery = a probe succeeds within K={K} attempts of {DEADLINE} s after the upstream is reachable again; control tunnel checked during and after every outage; a QUIC upstream away for 34 s (thorough 110 s) with one request per second arriving meanwhile (the connection attempt backs off exponentially); plus, for http and socks5 upstreams, a listener that silently drops connection attempts with 48 requests pending while the control tunnel and new direct requests are timed; plus, for quic / http / socks hops (real second redproxy), one origin behind the healthy hop silently dropping connection attempts for 15 s with 3 requests pending, while 3 established tunnels through the same hop echo every 0.5 s and new ones are opened',
        'schedules': evals, 'K': K, 'deadline_s': DEADLINE, 'schedule_control': 'kernel', 'samples': samples}
 sys.exit(chk.finish('fault_enumeration', cov, ['silent packet loss on the QUIC path with later recovery is out of reach (needs the 3600 s idle timeout)', 'upstreams are Python servers / a second redproxy process killed with SIGKILL'], merge=False))
